@@ -4,6 +4,7 @@ CONSTANTS
   KeyLines = {0, 1, 2, 3}
   KeyOffs = {0, 2, 5, 121, 124, 13, 16}
   FixR = TRUE
+  Wide = FALSE
 INIT Init
 NEXT Next
 INVARIANTS RepairedPointsAtText FirstCodingDeviates Emit
